@@ -377,3 +377,35 @@ def rule_clone(rep, fb, floor=20):
                 r.check(ok, key, "%s:%d" % (f["file"], br[3][-1]), "branch for %s is not a width-clone of the branch for %s: %s" % (br[0], ref[0], bad[:1]),
                         detail="%d width-token differences only" % len(diffs))
     return r.done()
+
+
+
+def rule_orderdep(rep, fb, floor=1):
+    """a boolean accumulated over a loop must be monotone: otherwise the result depends on which element comes last"""
+    from .callsites import each_block
+    r = rep.rule("ORDER.loop-flag", "a boolean local declared before a loop over the operands, set to a constant inside the loop and read after it, is only ever set to ONE constant inside the loop "
+                 "(a flag assigned true for some operands and false for others records only the last operand: the result would depend on operand order)", floor=floor)
+    n = 0
+    for f in fb.lib_funcs():
+        def onblock(stmts, f=f):
+            nonlocal n
+            for i, s in enumerate(stmts):
+                if s[0] != "foreach":   # range-for over a collection of operands (index/while loops are scanners with legitimate state flags)
+                    continue
+                body = s[4] if s[0] == "foreach" else s[2]
+                asg = find_all(body, lambda k: k[0] == "assign" and len(k) == 4 and k[1][0] == "var" and k[2][0] == "const" and isinstance(k[2][1], bool))
+                byvar = {}
+                for a in asg:
+                    byvar.setdefault(a[1][1], set()).add(a[2][1])
+                for v, vals in byvar.items():
+                    declared_before = any(st[0] == "decl" and st[1] == v and (st[2] or "").replace("const ", "") == "bool" for st in stmts[:i])
+                    read_after = bool(find_all(tuple(stmts[i + 1:]), lambda k: k == ("var", v)))
+                    if not (declared_before and read_after):
+                        continue
+                    n += 1
+                    r.check(len(vals) == 1, "%s:%s" % (f["qual"], v), "%s:%d" % (f["file"], s[-1]),
+                            "%s: flag '%s' is set to true for some loop elements and to false for others and read after the loop: only the last element decides" % (f["qual"], v),
+                            detail="'%s' only set to %s inside the loop" % (v, sorted(vals)))
+        each_block(f["body"], onblock)
+    r.count("loop_flags", n)
+    return r.done()
